@@ -132,6 +132,10 @@ func (rc *RegClient) ManifestGet(ctx context.Context, r ref.Ref, opts ...Manifes
 		if err != nil {
 			return m, err
 		}
+		if err := d.Digest.Validate(); err != nil {
+			// an entry without a usable digest cannot be followed (an empty one would fall back to the tag)
+			return m, fmt.Errorf("platform entry of %s has an invalid digest %q: %w", r.CommonName(), string(d.Digest), err)
+		}
 		r = r.SetDigest(d.Digest.String())
 		m, err = schemeAPI.ManifestGet(ctx, r)
 		if err != nil {
@@ -178,6 +182,10 @@ func (rc *RegClient) ManifestHead(ctx context.Context, r ref.Ref, opts ...Manife
 		d, err := manifest.GetPlatformDesc(m, opt.platform)
 		if err != nil {
 			return m, err
+		}
+		if err := d.Digest.Validate(); err != nil {
+			// an entry without a usable digest cannot be followed (an empty one would fall back to the tag)
+			return m, fmt.Errorf("platform entry of %s has an invalid digest %q: %w", r.CommonName(), string(d.Digest), err)
 		}
 		r = r.SetDigest(d.Digest.String())
 		m, err = schemeAPI.ManifestHead(ctx, r)
